@@ -28,7 +28,10 @@ Keys     == ErrTypes \cup {"Any"}
 EvKinds  == {"susp", "rein", "rest", "stop", "start"}
 
 (* ---- supervisor.NewSupervisor / Supervisor.Directive -------------------------- *)
-(* cfg: [strat, typed, ptyped, any, late, max, win, backoff]                        *)
+(* cfg: [strat, typed, ptyped, any, late, max, win, backoff, mix]                   *)
+(*   mix     c2 is spawned with its own supervisor: same rules, the OTHER strategy   *)
+(*           (the group, budget and window of a failure are those of the failing     *)
+(*           child's supervisor)                                                     *)
 (*   typed   directive registered for ErrA ("none" = not registered)                *)
 (*   ptyped  directive for PanicError ("default" = the built-in Stop)               *)
 (*   any     WithAnyErrorDirective ("none" = absent); it wipes every other rule     *)
@@ -49,10 +52,12 @@ Lookup(c, e) == LET t == Table(c) IN IF t[e] # "none" THEN t[e] ELSE t["Any"]
 WinPos(c) == c.win \in {"short", "long"}
 
 PCfgAsCfg(pc) == [strat |-> "one", typed |-> "none", ptyped |-> "default", any |-> pc.dir, late |-> FALSE,
-                  max |-> 0, win |-> "zero", backoff |-> FALSE]
+                  max |-> 0, win |-> "zero", backoff |-> FALSE, mix |-> FALSE]
 GCfg == [strat |-> "one", typed |-> "none", ptyped |-> "default", any |-> "Resume", late |-> FALSE,
-         max |-> 0, win |-> "zero", backoff |-> FALSE]
-CfgOf(a, cfg, pcfg) == IF a \in Kids THEN cfg ELSE IF a = "p" THEN PCfgAsCfg(pcfg) ELSE GCfg
+         max |-> 0, win |-> "zero", backoff |-> FALSE, mix |-> FALSE]
+Other(s) == IF s = "one" THEN "all" ELSE "one"
+CfgOf(a, cfg, pcfg) == IF a = "c2" /\ cfg.mix THEN [cfg EXCEPT !.strat = Other(cfg.strat)]
+                       ELSE IF a \in Kids THEN cfg ELSE IF a = "p" THEN PCfgAsCfg(pcfg) ELSE GCfg
 
 (* ---- family state -------------------------------------------------------------- *)
 (* S: [st, inc, rc, mk, flt, lf, ps, esc, intree, ev]  (functions on Actors)         *)
